@@ -103,6 +103,7 @@ pub fn hx_cfg_from_json(v: &Value) -> HxCfg {
     c.reload_swap = o["reload_swap"].as_bool().unwrap_or(false);
     c.merges = serde_json::from_value(o["merges"].clone()).unwrap_or_default();
     c.merge_fails = serde_json::from_value(o["merge_fails"].clone()).unwrap_or_default();
+    c.scripts = serde_json::from_value(o["scripts"].clone()).unwrap_or_default();
     c.track_returned = v["track_returned"].as_bool().unwrap_or(false);
     c
 }
